@@ -1,5 +1,5 @@
 (* Property C02 - equality compares in the selected value's own type; bad literals are errors. Numerals are digit lists (most significant first), dval their positional value, canonical = no leading zero; integers are Z throughout, never floats. Statements only (proofs: C02.v, C02b.v, C01.v). *)
-From Coq Require Import List String ZArith NArith Bool. From Bexpr Require Import Base Strconv Ast Univ Eval C01 C02 C02b. Import ListNotations. Open Scope Z_scope.
+From Coq Require Import List String ZArith NArith Bool. From Bexpr Require Import Base Strconv Ast Univ Eval C01 C02 C02b RoundRat. Import ListNotations. Open Scope Z_scope.
 
 Theorem parse_int_dec_pos :
   forall ds : list Z, canonical ds -> dval ds 0 < 2 ^ 63 -> parse_int (dstr ds) 0 64 = POk (dval ds 0).
@@ -287,3 +287,37 @@ Theorem parse_bool_table :
 Proof. exact C02c.parse_bool_table. Qed.
 Print Assumptions parse_bool_table.
 
+
+(* The nearest float of the field's width. The float parser model reads the literal as an exact positive rational n/d and rounds once
+   (Strconv.round_rat n d p emin emax; p = 53, emin = -1074 for float64, p = 24, emin = -149 for float32). A float is a pair (m, e)
+   denoting m * 2^e. The result is a canonical float of that format; no float of the format is closer to n/d; and when another is
+   exactly as close the result's mantissa is even - IEEE 754 round-to-nearest, ties to even, for every positive rational, every
+   precision and every exponent range. Distances are cross-multiplied (D n d m e = |m * 2^e - n/d| * d * pn e, with
+   2^e = pp e / pn e), so the statements are about integers only. *)
+Theorem round_rat_canonical :
+  forall n d p emin emaxe m er : Z,
+  0 < n -> 0 < d -> 1 <= p -> round_rat n d p emin emaxe = Some (m, er) ->
+  0 <= m < 2 ^ p /\ emin <= er <= emaxe /\ (er = emin \/ 2 ^ (p - 1) <= m).
+Proof. exact RoundRat.round_rat_canonical. Qed.
+Print Assumptions round_rat_canonical.
+
+Theorem round_rat_nearest :
+  forall n d p emin emaxe m er m' e2 : Z,
+  0 < n -> 0 < d -> 1 <= p -> round_rat n d p emin emaxe = Some (m, er) ->
+  0 <= m' < 2 ^ p -> emin <= e2 ->
+  D n d m er * pn e2 <= D n d m' e2 * pn er.
+Proof. exact RoundRat.round_rat_nearest. Qed.
+Print Assumptions round_rat_nearest.
+
+Theorem round_rat_ties_to_even :
+  forall n d p emin emaxe m er : Z,
+  0 < n -> 0 < d -> 2 <= p -> round_rat n d p emin emaxe = Some (m, er) ->
+  2 * D n d m er = d * pp er -> Z.even m = true.
+Proof. exact RoundRat.round_rat_ties_to_even. Qed.
+Print Assumptions round_rat_ties_to_even.
+
+Theorem round_rat_instances :
+  round_rat 1 10 53 (-1074) 971 = Some (7205759403792794, -56) /\
+  round_rat 1 (2 ^ 1075) 53 (-1074) 971 = Some (0, -1074) /\ round_rat (2 ^ 1024) 1 53 (-1074) 971 = None.
+Proof. exact (conj RoundRat.round_rat_tenth (conj RoundRat.round_rat_half_min_subnormal RoundRat.round_rat_overflow)). Qed.
+Print Assumptions round_rat_instances.
